@@ -54,6 +54,25 @@ func build(a ANode) gedcom.Node {
 	return n
 }
 
+// buildGrown builds the same tree with another history: every node exists without children first and is compared (both
+// ways, twice) before it gets all of its children at once.  What a tree is equal to must not depend on how it came about.
+func buildGrown(a ANode) gedcom.Node {
+	n := gedcom.NewNode(gedcom.TagFromString(a.T), a.V, a.P)
+	twin := gedcom.NewNode(gedcom.TagFromString(a.T), a.V, a.P)
+	for k := 0; k < 2; k++ {
+		_ = gedcom.DeepEqual(n, twin)
+		_ = gedcom.DeepEqual(twin, n)
+	}
+	if len(a.Kids) > 0 {
+		kids := gedcom.Nodes{}
+		for _, k := range a.Kids {
+			kids = append(kids, buildGrown(k))
+		}
+		n.SetNodes(kids)
+	}
+	return n
+}
+
 type label struct {
 	S    string `json:"s"`
 	Path []int  `json:"path"`
@@ -223,6 +242,11 @@ func exec07(c Case) interface{} {
 		o.Copy.SrcSame = before.same(snap(src))
 		o.Copy.Deq12 = gedcom.DeepEqual(src, cp)
 		o.Copy.Deq21 = gedcom.DeepEqual(cp, src)
+		// ... and for the tree with the other history (compared while childless, children set afterwards)
+		grown := buildGrown(a)
+		cpG := gedcom.DeepCopy(grown, nil)
+		o.Copy.Deq12 = o.Copy.Deq12 && gedcom.DeepEqual(grown, cpG) && gedcom.DeepEqual(grown, src)
+		o.Copy.Deq21 = o.Copy.Deq21 && gedcom.DeepEqual(cpG, grown) && gedcom.DeepEqual(src, grown)
 		// the edited tree is made from the copy
 		t2 := cp
 		switch c.Op.K {
@@ -473,6 +497,7 @@ func exec09(c Case) interface{} {
 		all := append(append(gedcom.Nodes{}, ls...), rs...)
 		before := snap(all...)
 		var res gedcom.Nodes
+		listsChanged := false
 		if c.Mode == "c09n" {
 			m, err := gedcom.MergeNodes(ls[0], rs[0], nil)
 			o.Err = err != nil
@@ -480,9 +505,30 @@ func exec09(c Case) interface{} {
 				res = gedcom.Nodes{m}
 			}
 		} else {
-			res = gedcom.MergeNodeSlices(ls, rs, nil, mergeFn(c.Op.Fn))
+			// the lists themselves are inputs too: the same nodes at the same places afterwards.  Every other time the right
+			// list is the child list of a node, as the library itself passes it
+			ls0, rs0 := append(gedcom.Nodes{}, ls...), append(gedcom.Nodes{}, rs...)
+			rarg := rs
+			var holder gedcom.Node
+			if len(rs)%2 == 1 {
+				holder = gedcom.NewNode(gedcom.TagFromString("_HOLDER"), "", "")
+				holder.SetNodes(append(gedcom.Nodes{}, rs...))
+				rarg = holder.Nodes()
+			}
+			res = gedcom.MergeNodeSlices(ls, rarg, nil, mergeFn(c.Op.Fn))
+			listsSame := len(ls) == len(ls0) && len(rarg) == len(rs0)
+			for i := range ls0 {
+				listsSame = listsSame && i < len(ls) && ls[i] == ls0[i]
+			}
+			for i := range rs0 {
+				listsSame = listsSame && i < len(rarg) && rarg[i] == rs0[i]
+				if holder != nil {
+					listsSame = listsSame && i < len(holder.Nodes()) && holder.Nodes()[i] == rs0[i]
+				}
+			}
+			listsChanged = !listsSame
 		}
-		o.Pure = before.same(snap(all...))
+		o.Pure = before.same(snap(all...)) && !listsChanged
 		for _, n := range res {
 			o.Res = append(o.Res, project(n, ids, tab))
 		}
@@ -553,6 +599,11 @@ func bigAlphabet() alpha {
 		}
 	}
 	a.leaf = append(a.leaf, mk("NOTE", "a", "N1", `{"k":"plain"}`))
+	// the other kinds of node that have a type of their own
+	for _, tv := range [][2]string{{"SEX", "M"}, {"SEX", "F"}, {"SEX", ""}, {"NICK", "a"}, {"TYPE", "a"}, {"FORM", "a"}, {"MAP", ""}, {"LATI", "N1"}, {"LONG", "E1"},
+		{"FONE", "a"}, {"ROMN", "a"}} {
+		a.leaf = append(a.leaf, mk(tv[0], tv[1], "", `{"k":"plain"}`))
+	}
 	for _, t := range []string{"BIRT", "DEAT", "BURI", "BAPM"} {
 		a.leaf = append(a.leaf, mk(t, "", "", `{"k":"plain"}`), mk(t, "Y", "", `{"k":"plain"}`))
 	}
